@@ -33,7 +33,7 @@ Next == \/ lvl = 0 /\ lvl' = 1 /\ i' \in 1..NChunks
         \/ lvl = 1 /\ lvl' = 2 /\ i' \in { j \in 1..NRec : (j - 1) \div ChunkSize + 1 = i }
 
 (* what the specification says about one record *)
-InputAsLogged(r) == /\ P!EpsValidSet(r.polys)
+InputAsLogged(r) == /\ P!EpsValidWithDups(r.polys)     \* = EpsValidSet when no vertex is repeated
                     /\ P!ExpectedTris(r.polys) = r.ntri
                     /\ P!SetArea2(r.polys) = r.area2
 Verdict(r) == IF r.valid THEN (IF InputAsLogged(r) THEN P!WhyInvalid(r.polys, r.tris) ELSE "input")
